@@ -206,6 +206,9 @@ class SymClient(Client):
                 if isinstance(x.func, ast.Name) and (d, x.func.id) in env and not any(isinstance(a, ast.Starred) for a in x.args):
                     # a callable held in a local (`t(v)` under `for t, v in zip(types, row)`): application of that value
                     return ("apply", env[(d, x.func.id)], tuple(go(a) for a in x.args) + tuple((k.arg, go(k.value)) for k in x.keywords))
+                if isinstance(x.func, (ast.Subscript, ast.Call)) and not any(isinstance(a, ast.Starred) for a in x.args):
+                    # a callable taken out of a container (`types[i](raw[i])`): application of that value
+                    return ("apply", go(x.func), tuple(go(a) for a in x.args) + tuple((k.arg, go(k.value)) for k in x.keywords))
                 fname = ast.unparse(x.func) if isinstance(x.func, (ast.Name, ast.Attribute)) else None
                 if fname is not None and not any(isinstance(a, ast.Starred) for a in x.args) and not self._writes(x, ctx):
                     if isinstance(x.func, ast.Attribute) and fname not in READ_ONLY_MODFUNCS:
@@ -239,6 +242,10 @@ class SymClient(Client):
                     n = self.sym(args[0], env, ver, ctx)
                     if n[0] == "call" and n[1] == "len" and len(n[2]) == 1:
                         self.loop_ranges[loop_id] = n[2][0]
+                        return ("idx", loop_id)
+                    if n[0] == "call" and n[1] == "min" and n[2] and all(isinstance(a, tuple) and a[0] == "call" and a[1] == "len" for a in n[2]):
+                        # the positions common to several sequences (where zip would stop)
+                        self.loop_ranges[loop_id] = tuple(a[2][0] for a in n[2])
                         return ("idx", loop_id)
         if isinstance(it, ast.Call) and isinstance(it.func, ast.Attribute) and it.func.attr == "items" and not it.args:
             x = self.sym(it.func.value, env, ver, ctx)
